@@ -50,7 +50,8 @@ class RegexConst(object):
         return hash(("RegexConst", self.pattern, self.flags))
 
 
-_TYPE_BUILTINS = ("str", "int", "float", "bool", "dict", "list", "set", "tuple", "object", "bytes")
+_TYPE_BUILTINS = ("str", "int", "float", "bool", "dict", "list", "set", "tuple", "object", "bytes", "frozenset", "complex",
+                  "bytearray")
 _SIX = {
     "string_types": (TypeMarker("str"),),
     "integer_types": (TypeMarker("int"),),
@@ -215,6 +216,10 @@ class ClassInfo(object):
         k = ia.kind(model)
         if isinstance(k, tuple) and k[0] == "instance":
             return k[1]
+        if k == "param":
+            cs = model.param_attr_classes(self, attr)
+            if len(cs) == 1:
+                return list(cs)[0]
         return None
 
 
@@ -452,6 +457,51 @@ class Model(object):
                     return None
             return ("external", ".".join(target))
         return None
+
+    def param_attr_classes(self, cls, attr):
+        """classes of the objects stored in a back-pointer attribute ``self.<attr> = <constructor parameter>``: inferred from
+        the constructor call sites  K(self)  in methods of other classes"""
+        key = (cls.qname, attr)
+        cache = self.__dict__.setdefault("_pac", {})
+        if key in cache:
+            return cache[key]
+        cache[key] = set()
+        out = set()
+        for c in cls.mro():
+            init = c.methods.get("__init__")
+            if init is None:
+                continue
+            params = [a.arg for a in init.args.args]
+            idx = None
+            for node in ast.walk(init):
+                if isinstance(node, ast.Assign) and isinstance(node.value, ast.Name) and node.value.id in params:
+                    for t in node.targets:
+                        if isinstance(t, ast.Attribute) and t.attr == attr and isinstance(t.value, ast.Name) and t.value.id == params[0]:
+                            idx = params.index(node.value.id) - 1
+            if idx is None:
+                continue
+            users = [k for k in self.classes.values() if c in k.mro()]
+            for f in self.all_functions():
+                if f.cls is None or not f.node.args.args:
+                    continue
+                selfname = f.node.args.args[0].arg
+                for node in ast.walk(f.node):
+                    if isinstance(node, ast.Call) and len(node.args) > idx:
+                        d = dotted(node.func)
+                        if not d:
+                            continue
+                        r = self.resolve_name(f.module, d)
+                        if r and r[0] == "class" and r[1] in users:
+                            a = node.args[idx]
+                            if isinstance(a, ast.Name) and a.id == selfname:
+                                out.add(f.cls)
+                            elif isinstance(a, ast.Attribute):
+                                rc = self.receiver_class(f, a)
+                                if rc is not None:
+                                    out.add(rc)
+            break
+        cache[key] = out
+        return out
 
     # -- constant folding -------------------------------------------------------------------------
     def const(self, modname, name):
